@@ -407,4 +407,148 @@ theorem readAllE_eq (I : Inner) (given : Option Name) (force : Bool) (cs : List 
         | true => have := h1.mpr hx; rw [hr] at this; cases this
       simp [hne, this]
 
+/-! ## stream writer with the exception -/
+
+/-- the writer has started on the text `d` and its inner encoder refuses what it was handed -/
+def werr (given : Option Name) (d : List Nat) : Prop :=
+  ¬ WUnd given d ∧ encErrAt (finalE given d) (finalT given d) = true
+
+theorem wund_stable (given : Option Name) (a x : List Nat) (h : ¬ WUnd given a) : ¬ WUnd given (a ++ x) := by
+  cases given with
+  | some g =>
+    simp only [WUnd] at *
+    cases hf : fixEncoding a g false with
+    | none => exact absurd hf h
+    | some r => rw [fix_stable a x g r false hf]; simp
+  | none =>
+    simp only [WUnd] at *
+    cases hd : detectUnicode a false with
+    | none => exact absurd hd h
+    | some d => rw [detectUnicode_stable a x false d hd]; simp
+
+/-- state and text agree on whether the writer has started -/
+def WSt (given : Option Name) (a : List Nat) : ESt → Prop
+  | .waiting _ _ => WUnd given a
+  | .encoding _ _ => ¬ WUnd given a
+
+theorem wst_step (I : InnerEnc) (given : Option Name) (a em x : List Nat) (s : ESt)
+    (h : EInv I given a em s) (hw : WSt given a s) : WSt given (a ++ x) (estep I s x false).1 := by
+  cases s with
+  | waiting g buf =>
+    obtain ⟨rfl, rfl, _⟩ := h
+    cases g with
+    | some g =>
+      simp only [estep]
+      cases hf : fixEncoding (buf ++ x) g false with
+      | none => exact hf
+      | some t => simp only [WSt, WUnd, hf]; simp
+    | none =>
+      simp only [estep, detU]
+      cases hd : detectUnicode (buf ++ x) false with
+      | none => exact hd
+      | some d => simp only [WSt, WUnd, hd]; simp
+  | encoding E c => exact wund_stable given a x hw
+
+theorem wrunChunksE_spec (I : InnerEnc) (given : Option Name) (cs : List (List Nat)) :
+    ∀ (a em : List Nat) (s : ESt), EInv I given a em s → WSt given a s →
+      (cs ≠ [] → (wrunChunksE I s cs = none ↔ werr given (a ++ cs.flatten))) ∧
+      (∀ r, wrunChunksE I s cs = some r → r = erunChunks I s cs) := by
+  induction cs with
+  | nil =>
+    intro a em s _ _
+    exact ⟨fun h => absurd rfl h, fun r h => by simp [wrunChunksE] at h; simp [erunChunks, h]⟩
+  | cons c cs ih =>
+    intro a em s hinv hw
+    have hinv1 := estep_inv I given a em c s hinv
+    have hw1 := wst_step I given a em c s hinv hw
+    obtain ⟨ih1, ih2⟩ := ih _ _ _ hinv1 hw1
+    have hfl : a ++ (c :: cs).flatten = (a ++ c) ++ cs.flatten := by simp
+    -- what a raise of this step means for any continuation of the text
+    have hraise : (estep I s c false).1.raised = true → ∀ rest, werr given ((a ++ c) ++ rest) := by
+      intro hr rest
+      refine ⟨?_, eraised_mono I given (a ++ c) _ _ hinv1 hr rest⟩
+      cases hs : (estep I s c false).1 with
+      | waiting g b => rw [hs] at hr; simp [ESt.raised] at hr
+      | encoding E c1 => rw [hs] at hw1; exact wund_stable given _ rest hw1
+    -- … and the converse for the text up to here
+    have hconv : werr given (a ++ c) → (estep I s c false).1.raised = true := by
+      intro ⟨hu, he⟩
+      cases hs : (estep I s c false).1 with
+      | waiting g b => rw [hs] at hw1; exact absurd hw1 hu
+      | encoding E c1 =>
+        rw [hs] at hinv1
+        obtain ⟨_, hT⟩ := hinv1
+        obtain ⟨hE, hTT⟩ := hT []
+        simp only [List.append_nil] at hE hTT
+        rw [hE, hTT] at he
+        exact he
+    constructor
+    · intro _
+      rw [hfl]
+      simp only [wrunChunksE, estepE]
+      by_cases hr : (estep I s c false).1.raised = true
+      · simp only [hr, if_true]
+        exact ⟨fun _ => hraise hr cs.flatten, fun _ => trivial⟩
+      · have hr' : (estep I s c false).1.raised = false := by
+          cases hx : (estep I s c false).1.raised with
+          | true => exact absurd hx hr
+          | false => rfl
+        simp only [hr', Bool.false_eq_true, if_false]
+        by_cases hcs : cs = []
+        · subst hcs
+          simp only [wrunChunksE, List.flatten_nil, List.append_nil]
+          exact ⟨fun h => (by cases h), fun h => absurd (hconv h) hr⟩
+        · have := ih1 hcs
+          cases hrest : wrunChunksE I (estep I s c false).1 cs with
+          | none => exact ⟨fun _ => this.mp hrest, fun _ => rfl⟩
+          | some r' =>
+            constructor
+            · intro h; simp at h
+            · intro h
+              have := this.mpr h
+              rw [hrest] at this; cases this
+    · intro r h
+      simp only [wrunChunksE, estepE] at h
+      by_cases hr : (estep I s c false).1.raised = true
+      · simp [hr] at h
+      · have hr' : (estep I s c false).1.raised = false := by
+          cases hx : (estep I s c false).1.raised with
+          | true => exact absurd hx hr
+          | false => rfl
+        simp only [hr', Bool.false_eq_true, if_false] at h
+        cases hrest : wrunChunksE I (estep I s c false).1 cs with
+        | none => simp [hrest] at h
+        | some r' =>
+          simp only [hrest, Option.some.injEq] at h
+          have := ih2 r' hrest
+          subst h
+          simp [erunChunks, ← this]
+
+/-- `write(chunk)` … of the CSS stream writer raises iff the writer has started on the whole text and the inner
+encoder refuses what it is handed; otherwise what was written is `writeAll` -/
+theorem writeAllE_eq (I : InnerEnc) (given : Option Name) (cs : List (List Nat)) :
+    (writeAllE I given cs = none ↔ (cs ≠ [] ∧ werr given cs.flatten)) ∧
+    (∀ out, writeAllE I given cs = some out → out = writeAll I given cs) := by
+  unfold writeAllE writeAll
+  obtain ⟨h1, h2⟩ := wrunChunksE_spec I given cs [] [] (.waiting given []) (⟨rfl, rfl, rfl⟩ : EInv I given [] [] (.waiting given []))
+    (wund_init given)
+  simp only [List.nil_append] at h1
+  constructor
+  · by_cases hcs : cs = []
+    · subst hcs; simp [wrunChunksE]
+    · have := h1 hcs
+      cases hr : wrunChunksE I (.waiting given []) cs with
+      | none => simp [hcs, this.mp hr]
+      | some r =>
+        simp only [Option.map_some, reduceCtorEq, false_iff, not_and]
+        intro _ hw
+        have := this.mpr hw
+        rw [hr] at this; cases this
+  · intro out h
+    cases hr : wrunChunksE I (.waiting given []) cs with
+    | none => simp [hr] at h
+    | some r =>
+      simp only [hr, Option.map_some, Option.some.injEq] at h
+      rw [← h, h2 r hr, wrunChunks_eq]
+
 end CssVerif.Codec
